@@ -6,6 +6,7 @@ import Model.RunLoop
 import Proofs.RunLoop
 import Model.Matcher
 import Proofs.Matcher
+import Proofs.Funcs
 
 namespace Props.C03
 open Model.Scan Model.Run Proofs.Run
@@ -56,5 +57,18 @@ theorem c03_when_order (fuel : Nat) (env : Model.Interp.Env) (l r : Model.Interp
     (Model.Interp.evalWhen (fuel + 1) env l r s).2 =
       (Model.Interp.evalM fuel env r (Model.Interp.evalM fuel env l s).2).2 :=
   Proofs.Matcher.when_true fuel env l r s h ho
+
+/-- `line_number()`, `count_lines()`, `count_scans()`, `count()` and `total_lines()` report, on every line and whatever
+    else the csvpath does, the line's 0-based position, the 1-based count of data lines, the 1-based number of the scan
+    (`c03_ctx_counts`: the loop's `scan_count` after it was raised for this line) and the match count so far plus one — the
+    fields of the environment the matcher is handed for the line (`interpMatcher` fills them from the run loop's context) —
+    and change no state. -/
+theorem c03_position_functions (fuel : Nat) (env : Model.Interp.Env) (id : Nat) (q : List String) (s : Model.Interp.ES) :
+    Model.Interp.produceFn (fuel + 1) env id "line_number" q [] s = (.int env.idx, s) ∧
+    Model.Interp.produceFn (fuel + 1) env id "count_lines" q [] s = (.int env.dataCount, s) ∧
+    Model.Interp.produceFn (fuel + 1) env id "count_scans" q [] s = (.int env.scanCount, s) ∧
+    Model.Interp.produceFn (fuel + 1) env id "count" q [] s = (.int (env.matchCount + 1), s) ∧
+    Model.Interp.produceFn (fuel + 1) env id "total_lines" q [] s = (.int env.dataEndCount, s) :=
+  Proofs.Funcs.fn_positions fuel env id q s
 
 end Props.C03
